@@ -3232,7 +3232,13 @@ func (e *nnsEngine) matrixOn(x string, mini bool) {
 				r.Violation(orStr(v.rule, nnsRuleUnauth), v.kf, "what-if %s by %s on %s HALTed with effect although: %s", c.desc(), cl.name, x, v.why)
 				verdict = "VIOLATION"
 			case v.exp == mustRefuse && (nnsOps > 0 || nnsEvs > 0):
-				r.Violation("C11/refusal-changed-state", "", "what-if %s by %s refused (%s) but left %d NNS storage changes and %d notifications", c.desc(), cl.name, p.State, nnsOps, nnsEvs)
+				// C11 speaks of *unauthorised* attempts; a call refused for another
+				// reason (name taken, malformed, …) that leaves a trace is C10's
+				rule := "C11/refusal-changed-state"
+				if v.auth != nnsAuthNo {
+					rule = "C10/refused-call-changed-state"
+				}
+				r.Violation(rule, "", "what-if %s by %s refused (%s) but left %d NNS storage changes and %d notifications", c.desc(), cl.name, p.State, nnsOps, nnsEvs)
 				verdict = "VIOLATION"
 			case v.exp == mustSucceed && !took && !GasFault(p.Fault):
 				r.Violation("C11/authorised-call-refused", "", "what-if %s by %s on %s refused: %s %s", c.desc(), cl.name, x, p.State, p.Fault)
